@@ -20,6 +20,7 @@ IsPrefixOf(p, q) == Len(p) <= Len(q) /\ SubSeq(q, 1, Len(p)) = p
 
 (* ---- the documented in-place parameters (transcribed from the docstrings / the property text) -- *)
 (* Each row exempts the sub-graph under the listed paths for calls of `entry` made with option     *)
+(* `opt` ("" = any); a parameter is listed under its positional slot and under its published name.  *)
 (* `opt` ("" = any).                                                                                *)
 (*  cp_mode_dot / CPTensor.mode_dot / tucker_mode_dot, copy=False : the factor list, the arrays     *)
 (*      in it and the cached shape of the wrapper are updated in place ("copy=False mode products") *)
@@ -28,15 +29,16 @@ IsPrefixOf(p, q) == Len(p) <= Len(q) /\ SubSeq(q, 1, Len(p)) = p
 (*  CPTensor.normalize : "the tensor modifies itself and returns itself"                            *)
 ExemptTable == {
     [entry |-> "cp_tensor.cp_mode_dot", opt |-> "copy=False",
-     under |-> {<<"args","0","factors">>, <<"args","0","1">>, <<"args","0","shape">>}],
+     under |-> {<<"args","0","factors">>, <<"args","0","1">>, <<"args","0","shape">>,
+                <<"kwargs","cp_tensor","factors">>, <<"kwargs","cp_tensor","1">>, <<"kwargs","cp_tensor","shape">>}],
     [entry |-> "cp_tensor.CPTensor.mode_dot", opt |-> "copy=False",
-     under |-> {<<"args","0","factors">>, <<"args","0","shape">>}],
+     under |-> {<<"args","0","factors">>, <<"args","0","shape">>, <<"kwargs","self","factors">>, <<"kwargs","self","shape">>}],
     [entry |-> "tucker_tensor.tucker_mode_dot", opt |-> "copy=False",
-     under |-> {<<"args","0","factors">>, <<"args","0","1">>}],
+     under |-> {<<"args","0","factors">>, <<"args","0","1">>, <<"kwargs","tucker_tensor","factors">>, <<"kwargs","tucker_tensor","1">>}],
     [entry |-> "solvers.hals_nnls", opt |-> "",
      under |-> {<<"kwargs","V">>, <<"args","2">>}],
     [entry |-> "backend.index_update", opt |-> "",
-     under |-> {<<"args","0">>}],
+     under |-> {<<"args","0">>, <<"kwargs","tensor">>}],
     [entry |-> "cp_tensor.CPTensor.normalize", opt |-> "",
      under |-> {<<"args","0","weights">>, <<"args","0","factors">>}] }
 
@@ -56,7 +58,13 @@ ASSUME \A r, s \in ExemptTable : (r.entry = s.entry /\ r.opt = s.opt) => r = s
 ArgForms == { "mode:int", "mode:neg", "mode:npint",                       \* one mode: 1, -2, numpy.int64(1)
               "modes:list", "modes:tuple", "modes:neg_list", "modes:neg_tuple",
               "modes:np_list", "modes:ndarray", "modes:set",              \* collections of modes
-              "dict:pos_keys", "dict:neg_keys", "dict:npint_keys" }       \* options keyed by mode number
+              "dict:pos_keys", "dict:neg_keys", "dict:npint_keys",        \* options keyed by mode number
+              "call:positional", "call:keyword",          \* every argument in the published order / by its published name
+              "alias:same_object", "alias:view",          \* two array arguments are one object / overlapping views
+              "prev:failed_call", "prev:failed_estimator",\* the same objects were first used in a call that failed half-way
+              "size:rank1", "size:rank_eq_dim", "size:rank_gt_dim", "size:single_sample", "size:single_column",
+              "flags:combined", "spelling:equivalent",    \* two return options together; spellings documented as equivalent
+              "entry:method", "entry:alias" }             \* second public entry points sharing a helper
 
 (* ---- the contract as state functions (used by the model below and by OwnershipTrace) ----------- *)
 \* slots whose digest differs although the call was obliged to preserve them
